@@ -7,6 +7,10 @@
 //   m.fb   <o0,o1,...> <start>           firstBlock(offsets, start)
 //   m.esc  <hexname>                     EscapeName / UnescapeName
 //   m.fix  <hexpath>                     fixStreamName (path.Clean) and splitPath
+//   m.clean <hexpath>                    path.Clean itself
+//   m.num  <hexstring>                   strconv.ParseUint(s,10,64) ParseInt(s,10,64) ParseInt(s,10,32) ParseInt(s,10,0) ParseUint(s,16,64)
+//   m.loc  <hexstring>                   blockdigest.IsBlockLocator, blockdigest.ParseBlockLocator, manifest.ParseBlockLocator,
+//                                        blockdigest.FromString(s).String()
 //
 // A panic inside one of the package's goroutines kills the process; check.py (driver marked
 // "isolate") then re-runs the shard case by case and records CRASH for the culprit.
@@ -17,12 +21,22 @@ import (
 	"encoding/hex"
 	"fmt"
 	"os"
+	"path"
 	"sort"
 	"strconv"
 	"strings"
 	"testing"
 	"time"
+
+	"git.arvados.org/arvados.git/sdk/go/blockdigest"
 )
+
+func verifC10Hints(h []string) string {
+	if len(h) == 0 {
+		return "-"
+	}
+	return strings.Join(h, ",")
+}
 
 func verifC10Unhex(s string) (string, bool) {
 	if s == "-" {
@@ -133,6 +147,61 @@ func verifC10Case(line string) (out string) {
 		}
 		sn, fn := splitPath(n)
 		return verifC10Hex(fixStreamName(n)) + " " + verifC10Hex(sn) + " " + verifC10Hex(fn)
+	case f[0] == "m.clean" && len(f) == 2:
+		n, ok := verifC10Unhex(f[1])
+		if !ok {
+			return "bad-op"
+		}
+		return verifC10Hex(path.Clean(n))
+	case f[0] == "m.num" && len(f) == 2:
+		n, ok := verifC10Unhex(f[1])
+		if !ok {
+			return "bad-op"
+		}
+		var r []string
+		if v, err := strconv.ParseUint(n, 10, 64); err == nil {
+			r = append(r, fmt.Sprint(v))
+		} else {
+			r = append(r, "e")
+		}
+		for _, bits := range []int{64, 32, 0} {
+			if v, err := strconv.ParseInt(n, 10, bits); err == nil {
+				r = append(r, fmt.Sprint(v))
+			} else {
+				r = append(r, "e")
+			}
+		}
+		if v, err := strconv.ParseUint(n, 16, 64); err == nil {
+			r = append(r, fmt.Sprint(v))
+		} else {
+			r = append(r, "e")
+		}
+		return strings.Join(r, " ")
+	case f[0] == "m.loc" && len(f) == 2:
+		n, ok := verifC10Unhex(f[1])
+		if !ok {
+			return "bad-op"
+		}
+		r := []string{"0"}
+		if blockdigest.IsBlockLocator(n) {
+			r[0] = "1"
+		}
+		if b, err := blockdigest.ParseBlockLocator(n); err == nil {
+			r = append(r, fmt.Sprintf("%s:%d:%s", b.Digest.String(), b.Size, verifC10Hints(b.Hints)))
+		} else {
+			r = append(r, "err")
+		}
+		if b, err := ParseBlockLocator(n); err == nil {
+			r = append(r, fmt.Sprintf("%s:%d:%s", b.Digest.String(), b.Size, verifC10Hints(b.Hints)))
+		} else {
+			r = append(r, "err")
+		}
+		if d, err := blockdigest.FromString(n); err == nil {
+			r = append(r, d.String())
+		} else {
+			r = append(r, "err")
+		}
+		return strings.Join(r, " ")
 	case f[0] == "m.esc" && len(f) == 2:
 		n, ok := verifC10Unhex(f[1])
 		if !ok {
